@@ -19,4 +19,16 @@ PROPS = {
                         "fewer than 2^63 enqueues (cursors modelled as Nat)",
                         "one consumer per queue; producers of one process serialised by sync.Mutex (TryLock-modelled)"],
     },
+    "C01": {
+        "lean_modules": ["ShmVerif.Tie.C01", "ShmVerif.Props.C01"],
+        "harness": True,
+        "level": "proof",
+        "trusted_base": COMMON_TB,
+        "rule": "cases = (1-5 slots, 1-3 threads with random pop/push programs, random PCT-flavoured schedule of single-access "
+                "steps + deterministic completion) plus systematic run-length-block interleavings of two threads; non-trivial = "
+                "hit at least one of: failed head CAS, failed tail CAS, last-slot path, failed pop, ABA; distinct by hash of op lines",
+        "assumptions": ["sequential consistency at the level of the listed accesses (amd64 TSO + sync/atomic)",
+                        "the non-atomic flag-byte |= is modelled as one step (no concurrent writer of that byte exists outside ABA)"],
+    },
 }
+PROPS["C02"] = dict(PROPS["C01"], lean_modules=["ShmVerif.Tie.C01", "ShmVerif.Props.C02"])
